@@ -169,3 +169,30 @@ Example C10_checker_examples :
   frame_verdict (W [FInt]) (lacking "INTEGER.+" (set_int busy [4])) (set_int busy [4]) (set_int busy [4; 0]) = false /\  (* pushed although lacking *)
   frame_verdict (W [FInt]) (lacking "INTEGER.+" (set_int busy [4; 3])) (set_int busy [4; 3]) (set_bool (set_int busy [7]) []) = false. (* wrote BOOLEAN *)
 Proof. repeat split; reflexivity. Qed.
+
+(* ---- the pinned tree (before the `fix:` commits 3e20bea and 3db4012) ---- *)
+(* CODE.ATOM compared the top CODE item with an integer / an instruction by type and pushed the
+   answer unconditionally: FALSE was pushed although the CODE stack was empty *)
+Definition code_atom_pinned : instr := fun s =>
+  Ok (push_bool s (match st_code s with ILit (LInt _) :: _ => true | IInstr _ :: _ => true | _ => false end)).
+Example C10_code_atom_pinned_refuted : forall (FO : FloatOps),
+  let s := set_code busy [] in
+  lacking "CODE.ATOM" s = true /\
+  pure code_atom_pinned Debug w0 s = Ok (w0, set_bool s [false; true]) /\ ~ only_pops s (set_bool s [false; true]) /\
+  pure code_atom Debug w0 s = Ok (w0, s).
+Proof.
+  intro FO. repeat split; try reflexivity.
+  intros H. apply only_pops_b_ok in H. vm_compute in H. discriminate H.
+Qed.
+(* FLOATVECTOR.SUM was bound to the body of FLOATVECTOR.STACKDEPTH: it wrote INTEGER, outside the
+   documented footprint { FLOAT }; BOOLVECTOR.ROTATE was bound to BOOLVECTOR.RAND (no deterministic body) *)
+Example C10_registry_pinned_refuted : forall (FO : FloatOps),
+  let s := set_fvec busy [[f_one; f_one]] in
+  fp_lookup fp_all "FLOATVECTOR.SUM" = Some (W [FFloat]) /\
+  option_map (fun e => snd e Debug w0 s) (List.find (fun e => String.eqb (fst e) "FLOATVECTOR.SUM") tbl_fvec_pinned)
+    = Some (Ok (w0, set_int s [1])) /\
+  ~ same_outside (W [FFloat]) s (set_int s [1]).
+Proof.
+  intro FO. repeat split; try reflexivity.
+  intros H. apply same_outside_b_ok in H. vm_compute in H. discriminate H.
+Qed.
